@@ -29,5 +29,6 @@ mod util;
 /// Verification hooks: re-exports of private items for external checkers.
 #[cfg(feature = "verif-hooks")]
 pub mod verif_hooks {
+    pub use crate::c_api::{VerifCDecoder, VerifCEncoder};
     pub use crate::linalg::{Error as LinalgError, gauss_reduction, row_echelon_form};
 }
